@@ -29,6 +29,10 @@ def recheck(ids):
         old = json.loads((dest / "meta.json").read_text())
         wt = Path(tempfile.mkdtemp(prefix="verif_seed_")) / "wt"
         try:
+            rc, out = sh(["git", "-C", "/repo", "apply", "--check", str(dest / "patch.diff")])
+            if rc != 0:
+                print(f"{sid}: patch no longer applies to /repo HEAD (re-create it): {out[-200:]}")
+                continue
             rc, out = sh(["git", "-C", "/repo", "worktree", "add", "--detach", str(wt), "HEAD"])
             assert rc == 0, out
             pid = old["breaks_property"]
